@@ -57,9 +57,9 @@ var RespVariants = map[string][]string{
 	"proto":      {"HTTP/1.1", "HTTP/1.0", "HTTP/1.2", "HTTP/1.10", "HTTP/2.0", "HTTP/0.9", "HTTP/1.:", "HTTP/1.1x", "HTTP/1", "HTTP/1.01", "http/1.1"},
 	"status":     {"101", "200", "400", "100", "102", "301", "0:1", "09;", "0101", "+101", "1e2", "18446744073709551717", "1O1", "10", "1010", "missing", "-101", " 101"},
 	"reason":     {"Switching Protocols", "", "whatever you like", "101"},
-	"upgrade":    {"canonical", "absent", "case-name", "case-value", "blanks", "wrong", "empty", "dup-same", "dup-diff"},
-	"connection": {"canonical", "absent", "case-name", "case-value", "blanks", "wrong", "empty", "dup-same", "dup-diff", "list"},
-	"accept":     {"canonical", "absent", "case-name", "blanks", "other-key", "len27", "len29", "empty", "dup-same", "dup-diff", "lowercased", "noncanonical-base64", "one-char-off", "urlsafe-alphabet", "sha1-of-key-only", "quoted"},
+	"upgrade":    {"canonical", "absent", "case-name", "case-value", "blanks", "wrong", "empty", "dup-same", "dup-diff", "trailing-cr"},
+	"connection": {"canonical", "absent", "case-name", "case-value", "blanks", "wrong", "empty", "dup-same", "dup-diff", "list", "trailing-cr"},
+	"accept":     {"canonical", "absent", "case-name", "blanks", "other-key", "len27", "len29", "empty", "dup-same", "dup-diff", "lowercased", "noncanonical-base64", "one-char-off", "urlsafe-alphabet", "sha1-of-key-only", "quoted", "trailing-cr"},
 	"protocol":   {"none", "first", "last", "unrequested", "valid-then-unrequested", "unrequested-then-valid", "two-valid", "empty-value", "list", "case-changed"},
 	"extensions": {"none", "first", "first-with-params", "all", "unoffered", "offered-then-unoffered", "malformed", "empty-value"},
 	"extra":      {"none", "some", "long-value", "no-colon-line"},
@@ -128,6 +128,15 @@ func BuildResp(rng *rand.Rand, choice map[string]string, in ReqInfo) *Resp {
 		case "empty":
 			add(name, "")
 			v.Reject(name + " empty")
+		case "trailing-cr":
+			// the value is followed by a bare CR, then the line end: "...Upgrade<CR><CR><LF>" (with LF-only line
+			// ends, where the verdict is open anyway, that CR simply belongs to the terminator)
+			add(name, " "+good+"\r")
+			if get("eol") == "lf" {
+				v.MarkOpen(name + " line ends in CR LF inside an LF-only head")
+			} else {
+				v.Reject(name + " value followed by a bare CR")
+			}
 		case "dup-same":
 			add(name, " "+good)
 			add(name, " "+good)
